@@ -153,7 +153,7 @@ func (c *conn) write(data []byte) (n int, err error) {
 
 	defer func() {
 		if err != nil {
-			_ = c.loop.close(c, os.NewSyscallError("write", err))
+			c.loop.closeOnWriteError(c, os.NewSyscallError("write", err))
 		}
 	}()
 
@@ -202,7 +202,7 @@ func (c *conn) writev(bs [][]byte) (n int, err error) {
 
 	defer func() {
 		if err != nil {
-			_ = c.loop.close(c, os.NewSyscallError("writev", err))
+			c.loop.closeOnWriteError(c, os.NewSyscallError("writev", err))
 		}
 	}()
 
